@@ -313,7 +313,7 @@ class Body:
 class Program:
     """All crates of one extraction configuration."""
 
-    def __init__(self, fact_files):
+    def __init__(self, fact_files, inline_new=True):
         self.crates = {}
         self.bodies = {}
         self.adts = {}
@@ -333,6 +333,11 @@ class Program:
             for rb in d['bodies']:
                 b = Body(self, cn, rb)
                 self.bodies[b.id] = b
+        # normalisation: calls to functions that are not in the inventory of the verified tree are inlined (kvstatic/inline.py); a no-op on the verified tree
+        self.inlined = []
+        if inline_new:
+            from . import inline as _inline
+            self.inlined = _inline.normalise(self, Body)
         self._children = defaultdict(list)
         for b in self.bodies.values():
             if b.root != b.id:
